@@ -317,6 +317,8 @@ SPEC = {
         "real TCP, timers and goroutine fairness are not in the model: a time-out is a model event (the clock is advanced by ageing the stored timestamps, CheckTimeouts is called by the schedule); every handler call, processBlocks iteration and check call is one atomic step",
         "a closed connection loses what was in flight; the peer greets every new connection with version and has forgotten sendheaders",
         "the peer's best chain only changes to a chain with more blocks (most work at constant difficulty)",
+        "a getheaders reply (m headers; 2000 on the network) reaches past the deepest reorganisation the node has to undo after a reconnect: the generator keeps m >= the deepest possible reorganisation of the tree; below that the handshake reply consists of known headers only and the node loops on the header time-out (model and code agree; theorem C01_converges_fresh_forked states the condition f <= i + M)",
+        "liveness theorems cover freshly (re)connected worlds (three executable predicates; the check recounts how many generated reconnect worlds satisfy one of them: coverage keys reconnect_worlds / reconnect_worlds_covered); worlds with messages in flight across a peer event are covered by the correspondence exploration only",
     ],
     "rule": "block trees of 3-14 blocks with 0-3 forks (also forks of forks), start block at genesis / in the middle or on a fork / unknown, getheaders replies capped at 2, 3, 5, 8 or 2000 headers; histories of peer best-chain changes (extend by k, reorganise from depth d) before, during and after the initial sync; deliveries in order or reordered / duplicated / delayed, peer answers in or out of order, process / check steps anywhere, clock advances, time-outs, lost connections, node restarts, partial settling runs; every history ends with a settling run; plus chains of 1003-1012 blocks crossing the 1000-header file boundary with a reorganisation across it; distinct = distinct (cfg, ops)",
 }
